@@ -35,6 +35,7 @@ import (
 	"github.com/elnosh/gonuts/cashu/nuts/nut04"
 	"github.com/elnosh/gonuts/cashu/nuts/nut05"
 	"github.com/elnosh/gonuts/cashu/nuts/nut11"
+	"github.com/elnosh/gonuts/cashu/nuts/nut12"
 	"github.com/elnosh/gonuts/cashu/nuts/nut13"
 	"github.com/elnosh/gonuts/crypto"
 	"github.com/elnosh/gonuts/wallet"
@@ -933,9 +934,46 @@ func (b *Books) walletLocalMonitors(w *bWallet, s *wSnap) {
 			break
 		}
 	}
+	// C10: what the wallet keeps must still carry the mint's DLEQ proof with the wallet's r, acceptable to a third party
+	// under the keyset's published key — in the spendable bucket and in the pending bucket (from where a failed melt
+	// puts proofs back), after every operation and every reopening of the store
+	b.dleqStored(w, "spendable", func(f func(cashu.Proof)) {
+		for _, p := range s.spendSecrets {
+			f(p)
+		}
+	})
+	b.dleqStored(w, "pending", func(f func(cashu.Proof)) {
+		for _, p := range s.pendSecrets {
+			f(cashu.Proof{Amount: p.Amount, Id: p.Id, Secret: p.Secret, C: p.C, DLEQ: p.DLEQ})
+		}
+	})
 	if s.pendingBal != sumPending(*s) {
 		b.c.MonitorFail("C17", "C17/pending/sum-mismatch", fmt.Sprintf("%s: PendingBalance %d but pending bucket sums to %d", w.name, s.pendingBal, sumPending(*s)), b.replay())
 	}
+}
+
+func (b *Books) dleqStored(w *bWallet, bucket string, each func(func(cashu.Proof))) {
+	each(func(p cashu.Proof) {
+		mi := b.mintOfKeyset(p.Id)
+		if mi < 0 || mi >= len(b.mints) {
+			return
+		}
+		ks, err := b.mints[mi].env.M.GetKeysetById(p.Id)
+		if err != nil {
+			return
+		}
+		K, ok := ks.Keys[p.Amount]
+		if !ok {
+			return
+		}
+		b.c.Hist("C10 stored proofs", bucket+" checked")
+		if p.DLEQ == nil {
+			// (not a violation: NUT-12 proofs are optional, and Restore rebuilds proofs without them)
+			b.c.Hist("C10 stored proofs", bucket+" without DLEQ")
+		} else if !nut12.VerifyProofDLEQ(p, K) {
+			b.c.MonitorFail("C10", "C10/wallet-store/dleq-invalid/"+bucket, fmt.Sprintf("%s: the DLEQ proof stored with proof %s (%s bucket) does not verify under the keyset's key", w.name, short(p.Secret), bucket), b.replay())
+		}
+	})
 }
 
 func sumPending(s wSnap) uint64 {
@@ -1324,6 +1362,11 @@ func (b *Books) OpSend(w *bWallet, m *bMint, amount uint64, fees bool) (*bToken,
 	if err != nil {
 		return nil, err
 	}
+	b.dleqStored(w, "token", func(f func(cashu.Proof)) {
+		for _, p := range proofs {
+			f(p)
+		}
+	})
 	t := &bToken{id: b.nextTok, mint: m.idx, from: w.idx, to: -1, proofs: proofs}
 	b.nextTok++
 	b.tokens = append(b.tokens, t)
@@ -1348,6 +1391,11 @@ func (b *Books) OpSendLocked(w *bWallet, m *bMint, to *bWallet, amount uint64, s
 	if err != nil {
 		return nil, err
 	}
+	b.dleqStored(w, "token", func(f func(cashu.Proof)) {
+		for _, p := range proofs {
+			f(p)
+		}
+	})
 	t := &bToken{id: b.nextTok, mint: m.idx, from: w.idx, to: to.idx, sigAll: sigAll, proofs: proofs}
 	b.nextTok++
 	b.tokens = append(b.tokens, t)
